@@ -8,3 +8,5 @@ import LyModel.Props.C03
 import LyModel.Props.C15
 import LyModel.Props.C01Lyb
 import LyModel.Props.C16
+import LyModel.Props.C11
+import LyModel.Props.C11Range
